@@ -64,6 +64,29 @@ P = {
          "Runs as root: read-only locations via /proc, /sys, /dev/full; each fault class is probed first and skipped (labelled) if the environment does not provide it."),
 }
 
+# dimensions added after the seeded rounds (DESIGN.md §11.5); appended to the technique text of each check
+EXTRA = {
+ "C01": "histories (related predecessor builds incl. one that panics mid-encoding, builder warm-up with any mode / only changed setters re-sent); payload families UTF-8 text, special-token dictionary, class runs, extreme whole-symbol textures, codeword-steered block look-alikes; forced modes the input may not fit and lengths just beyond a pinned version's capacity (a symbol, if returned, must decode); row view (Index) == data",
+ "C02": "block look-alike payloads (zero / constant / near-copy / generator-multiple blocks), thread histories through the shared generators",
+ "C03": "side == 17+4 x the REPORTED version; every Clone copy (clone, clone_from onto larger and smaller symbols) equals the original byte for byte; row view == data; extreme textures and block look-alikes",
+ "C04": "every statement also on Clone copies (incl. clone_from onto a symbol of another level/mask/mode); first mode indicator must exist and be the reported mode; wasm entry points",
+ "C05": "wasm exports qr/qr_svg with forced versions around the minimum; every special token at every Byte threshold -1..+4; class runs",
+ "C06": "well-formed UTF-8 text at version borders; special tokens; block look-alikes",
+ "C07": "division HISTORIES on one thread with call counts around 2^k; symbol-level check on block look-alikes (padding look-alikes, near-copies)",
+ "C08": "default-level edge cases; cold first-use part: the eight pinned masks as the first use of the crate in a fresh process on 16 threads",
+ "C09": "class runs with lengths 2^k +- 1, realistic payloads with token prefix/suffix, pinned minimal version / default level",
+ "C10": "lengths around 2^16..2^20, special tokens, class runs, predecessors that panic or fail",
+ "C11": "enumerated extreme textures (the symbols with the largest penalty terms: flat, mask-pattern, finder-ratio fills) in all listed versions",
+ "C12": "image geometry over the whole finite range, margins on 10^k / 2^k boundaries up to 100 000, renderer warm-up perturbing every last-value-wins option or happening before the last layer, thread predecessors (multi-layer / failing render)",
+ "C13": "wide margins on 10^k / 2^k boundaries, fits below the symbol size, 0..2 opaque layers under the top layer (painter's model), renderer warm-up / thread predecessors",
+ "C14": "overwrite pairs and unfit modes in setter histories, Repeat ops (2^8 / 2^10 builds in a row), failing renders, cold reference process under 12 generated environments, cold concurrent rounds (first use of the crate under contention)",
+ "C15": "map of the REPORTED version; Clone copies byte-identical; re-entrant callback (builds and renders inside the callback); raster callback observer",
+ "C16": "locale / terminal environment phases (stored in replays), print() in a child process, edit-and-render-again on the same object and its clone, predecessor renders on the thread (failing / other symbol)",
+ "C17": "(unchanged; in-format values compared byte for byte, malformed ones only for no-panic and well-formedness)",
+ "C18": "overrides through the wasm export; sizes / gaps beyond the canvas; raster cross-check of every cell whose centre lies outside frame and image",
+ "C19": "process works inside its scratch directory: relative / sub-directory destinations, file-name extensions independent of the writer, really loaded images (relative files, data URI, missing), writers that rendered before (warm-up), existing-file classes; case JSON-round-tripped before use",
+}
+
 def main():
     repo_commits = subprocess.run(["git", "-C", "/repo", "log", "--format=%H %s"], capture_output=True, text=True).stdout.splitlines()
     hook_commits = [l.split()[0] for l in repo_commits if " verif hook:" in l]
@@ -81,7 +104,7 @@ def main():
                 "engine": "fqv",
                 "level_claimed": {"category": cat, "text": text, "design_ref": "DESIGN.md §" + ref},
                 "level_note": note,
-                "technique": tech,
+                "technique": tech + ("; added after the seeded rounds: " + EXTRA[pid] if pid in EXTRA else ""),
             })
         else:
             na.append({"property_id": pid, "reason": "check not built yet in this session (planned: see DESIGN.md §5); nothing is claimed for it"})
